@@ -57,6 +57,16 @@ partial def tyOf : Sexp → Option Ty
       if intOk l && intOk h && l ≤ h then some (.hash k v l h) else none
   | .list [.atom "like", t, n] => do let t ← tyOf t; let n ← n.bytes?; pure (.like t n)
   | .atom "callable" => some (.callable false [])
+  -- (struct (xNAME s|r|o T)*): a member given by a plain string key (s), a String['name'] / NotUndef['name'] key (r), an
+  -- Optional['name'] key (o); names are not empty
+  | .list (.atom "struct" :: es) => do
+      let es ← es.mapM (fun (e : Sexp) => match e with
+        | Sexp.list [n, .atom k, t] => do
+            let n ← n.bytes?; let t ← tyOf t
+            let kind ← (if k == "s" then some 0 else if k == "r" then some 1 else if k == "o" then some 2 else none)
+            if n.isEmpty then none else some (mkStructElem n kind t)
+        | _ => none)
+      some (.struct es)
   | .list [.atom "runtime", rt, n, .atom "n"] => do let rt ← rt.bytes?; let n ← n.bytes?; pure (.runtime rt n none)
   | .list [.atom "runtime", rt, n, p] => do let rt ← rt.bytes?; let n ← n.bytes?; let p ← p.bytes?; pure (.runtime rt n (some p))
   | .list (.atom "callable" :: ts) => (ts.mapM tyOf).map fun ts => .callable true ts
@@ -168,6 +178,7 @@ partial def tyStr : Ty → String
   | .like t n => "(like " ++ tyStr t ++ " " ++ hexB n ++ ")"
   | .runtime rt n none => "(runtime " ++ hexB rt ++ " " ++ hexB n ++ " n)"
   | .runtime rt n (some p) => "(runtime " ++ hexB rt ++ " " ++ hexB n ++ " " ++ hexB p ++ ")"
+  | .struct es => "(struct" ++ String.join (es.map fun (n, o, v) => " (" ++ hexB n ++ " " ++ (if o then "o" else "r") ++ " " ++ tyStr v ++ ")") ++ ")"
   | .callable false _ => "callable"
   | .callable true ts => "(callable" ++ String.join (ts.map fun t => " " ++ tyStr t) ++ ")"
   | .semverT o rs => if rangesEq rs matchAllR then "semver" else "(semver " ++ hexB (rangeStr o rs) ++ " " ++ hexB (normStr rs) ++ ")"
